@@ -705,10 +705,10 @@ Proof.
   - repeat split; auto. intro H. apply mem_In in H. congruence.
 Qed.
 
-Lemma find_node_inert : forall acts d f s,
-  forallb (inert_tree acts) f = true -> find_node f d = Some s -> inert_tree acts s = true.
+Lemma find_node_inert : forall cfg d f s,
+  forallb (inert_tree cfg) f = true -> find_node f d = Some s -> inert_tree cfg s = true.
 Proof.
-  intros acts. induction d as [|i r IH]; intros f s F H; [discriminate|].
+  intros cfg. induction d as [|i r IH]; intros f s F H; [discriminate|].
   simpl in H. destruct (find (fun s0 => Nat.eqb (s_id s0) i) f) as [s0|] eqn:E; [|discriminate].
   apply find_some in E. destruct E as [E _]. rewrite forallb_forall in F. pose proof (F s0 E) as I0.
   destruct r as [|j r'].
@@ -717,18 +717,20 @@ Proof.
 Qed.
 
 Lemma exit_cbs_inert : forall m n c, exit_inert m = true ->
-  In c (cbs_of (m_states m) n s_exit) -> act_of (m_acts m) c = None.
+  In c (cbs_of (m_states m) n s_exit) -> passive (cbcfg m) c = true.
 Proof.
   intros m n c I H. unfold cbs_of in H. destruct (find_node (m_states m) n) as [s|] eqn:E; [|contradiction].
   pose proof (find_node_inert _ _ _ _ I E) as J. destruct s. simpl in *.
-  apply andb_true_iff in J. destruct J as [J _]. rewrite forallb_forall in J. specialize (J c H).
-  destruct (act_of (m_acts m) c); [discriminate|reflexivity].
+  apply andb_true_iff in J. destruct J as [J _]. rewrite forallb_forall in J. exact (J c H).
 Qed.
 
-Lemma run_cbs_inert : forall call acts cs st, (forall c, In c cs -> act_of acts c = None) -> run_cbs call acts cs st = st.
+Lemma run_cbs_inert : forall call acts regen cs st,
+  (forall c, In c cs -> passive (acts, regen) c = true) -> run_cbs call acts regen cs st = st.
 Proof.
-  intros call acts. induction cs as [|c r IH]; intros st H; [reflexivity|].
-  simpl. rewrite (H c) by (left; auto). apply IH. intros; apply H; right; auto.
+  intros call acts regen. induction cs as [|c r IH]; intros st H; [reflexivity|].
+  simpl. pose proof (H c (or_introl eq_refl)) as Hc. unfold passive in Hc. simpl in Hc.
+  apply andb_true_iff in Hc. destruct Hc as [H1 H2]. apply negb_true_iff in H1. rewrite H1.
+  destruct (act_of acts c); [discriminate|]. apply IH. intros; apply H; right; auto.
 Qed.
 
 Definition call_ok (call : caller) : Prop :=
@@ -738,16 +740,18 @@ Definition call_ok (call : caller) : Prop :=
                 d_m (fst (f b d e)) = d_m d /\ pre_inv (fst (f b d e))
   end.
 
-Lemma run_cbs_pres : forall call acts m, call_ok call -> exit_inert m = true ->
+Lemma run_cbs_pres : forall call acts regen m, call_ok call -> exit_inert m = true ->
   forall cs st, d_m (fst st) = m -> pre_inv (fst st) ->
-  d_m (fst (run_cbs call acts cs st)) = m /\ pre_inv (fst (run_cbs call acts cs st)).
+  d_m (fst (run_cbs call acts regen cs st)) = m /\ pre_inv (fst (run_cbs call acts regen cs st)).
 Proof.
-  intros call acts m OK I. induction cs as [|c r IH]; intros st Hm Hp; [auto|].
-  simpl. apply IH.
-  - destruct (act_of acts c); auto. destruct call as [f|]; auto. destruct (snd st); auto.
-    simpl in OK. rewrite <- Hm in I. destruct (OK n (fst st) s I Hp) as [A _]. congruence.
-  - destruct (act_of acts c); auto. destruct call as [f|]; auto. destruct (snd st); auto.
-    simpl in OK. rewrite <- Hm in I. destruct (OK n (fst st) s I Hp) as [_ B]. auto.
+  intros call acts regen m OK I. induction cs as [|c r IH]; intros st Hm Hp; [auto|].
+  simpl. destruct (mem c regen).
+  - apply IH; simpl; auto. apply sty_pre. apply fresh_inv.
+  - apply IH.
+    + destruct (act_of acts c); auto. destruct call as [f|]; auto. destruct (snd st); auto.
+      simpl in OK. rewrite <- Hm in I. destruct (OK n (fst st) s I Hp) as [A _]. congruence.
+    + destruct (act_of acts c); auto. destruct call as [f|]; auto. destruct (snd st); auto.
+      simpl in OK. rewrite <- Hm in I. destruct (OK n (fst st) s I Hp) as [_ B]. auto.
 Qed.
 
 Lemma fire_body_ok : forall call b d e, call_ok call -> exit_inert (d_m d) = true -> pre_inv d ->
@@ -758,10 +762,10 @@ Proof.
   destruct (d_cur d) as [|leaf [|x rr]]; try (simpl; auto).
   destruct (pick (held (d_m d)) e leaf) as [t|]; [|simpl; auto].
   destruct (t_dst t) as [dst|]; [|simpl; auto].
-  rewrite (run_cbs_inert call (m_acts (d_m d)) (cbs_of (m_states (d_m d)) (t_src t) s_exit))
-    by (intros c Hc; eapply exit_cbs_inert; eauto).
+  rewrite (run_cbs_inert call (m_acts (d_m d)) (m_regen (d_m d)) (cbs_of (m_states (d_m d)) (t_src t) s_exit))
+    by (intros c Hc; apply (exit_cbs_inert (d_m d) (t_src t) c I Hc)).
   cbn [fst snd d_m d_sty d_last].
-  match goal with |- context [run_cbs call ?A ?C ?S] => remember (run_cbs call A C S) as st3 eqn:E3 end.
+  match goal with |- context [run_cbs call ?A ?R ?C ?S] => remember (run_cbs call A R C S) as st3 eqn:E3 end.
   assert (G : d_m (fst st3) = d_m d /\ pre_inv (fst st3)).
   { subst st3. apply run_cbs_pres; auto.
     intro n. simpl. destruct (nl_eqb n (t_src t)) eqn:En.
@@ -790,21 +794,21 @@ Proof.
   destruct G as [A [_ [C|C]]]; split; auto. rewrite C. auto.
 Qed.
 
-Lemma step_inv : forall d o, exit_inert (d_m d) = true -> op_inert (m_acts (d_m d)) o = true -> sty_inv d ->
-  sty_inv (step d o) /\ exit_inert (d_m (step d o)) = true /\ m_acts (d_m (step d o)) = m_acts (d_m d).
+Lemma step_inv : forall d o, exit_inert (d_m d) = true -> op_inert (cbcfg (d_m d)) o = true -> sty_inv d ->
+  sty_inv (step d o) /\ exit_inert (d_m (step d o)) = true /\ cbcfg (d_m (step d o)) = cbcfg (d_m d).
 Proof.
   intros d o I O S. destruct o; simpl.
   - destruct (fire_top (m_budget (d_m d)) (m_budget (d_m d)) d e I S) as [A B]. rewrite A. auto.
-  - split; [apply fresh_inv|]. split; auto. unfold exit_inert in *. simpl. rewrite forallb_app. rewrite I. simpl.
-    simpl in O. rewrite O. reflexivity.
+  - split; [apply fresh_inv|]. split; auto. unfold exit_inert, cbcfg in *. simpl in *. rewrite forallb_app. rewrite I. simpl.
+    rewrite O. reflexivity.
   - split; [apply fresh_inv|]. auto.
   - split; [apply fresh_inv|]. auto.
 Qed.
 
-Lemma run_inv : forall m ops, exit_inert m = true -> forallb (op_inert (m_acts m)) ops = true -> sty_inv (run m ops).
+Lemma run_inv : forall m ops, exit_inert m = true -> forallb (op_inert (cbcfg m)) ops = true -> sty_inv (run m ops).
 Proof.
   intros m ops I O. unfold run.
-  assert (G : forall d, sty_inv d -> exit_inert (d_m d) = true -> m_acts (d_m d) = m_acts m ->
+  assert (G : forall d, sty_inv d -> exit_inert (d_m d) = true -> cbcfg (d_m d) = cbcfg m ->
                         sty_inv (fold_left step ops d)).
   { induction ops as [|o ops IH]; intros d S Id Ad; simpl; auto.
     simpl in O. apply andb_true_iff in O. destruct O as [O1 O2].
@@ -837,7 +841,7 @@ Proof.
 Qed.
 
 Lemma styles_thm : forall m ops, let d := run m ops in
-  exit_inert m = true -> forallb (op_inert (m_acts m)) ops = true ->
+  exit_inert m = true -> forallb (op_inert (cbcfg m)) ops = true ->
   wf_kind (m_opts (d_m d)) (m_states (d_m d)) = true ->
   (forall n, In (ClassOf n 1) (view d) -> In n (d_cur d))
   /\ (forall n, In (ClassOf n 2) (view d) -> d_last d = Some n)
